@@ -135,6 +135,12 @@ std::string run(const Args& a) {
 				nif.PrettySortBlocks();
 			else if (a[i] == "opt")
 				nif.Optimize();
+			else if (a[i] == "fin")
+				nif.FinalizeData();
+			else if (a[i] == "save") {
+				std::stringstream ss(std::ios::in | std::ios::out | std::ios::binary);
+				nif.Save(ss);
+			}
 			else if (a[i].rfind("order:", 0) == 0) {
 				std::vector<std::string> order;
 				std::string spec = a[i].substr(6);
